@@ -361,6 +361,89 @@ Proof.
   destruct tr; repeat (apply Forall_cons; [vm_compute; reflexivity|]); apply Forall_nil.
 Qed.
 
+(* ---------------------------------------------------------------- by-value view adaptors
+   The view adaptors and wrappers do not have a lifetime parameter of their own: they store their
+   source S by value, and the borrow of `t.range(..)`, `t.view()`, `MatrixRefTensor::from(&t)` ...
+   sits in the type ARGUMENT (S = &'a Tensor / &'a mut Tensor).  (type, field, index of S). *)
+Definition source_table : list (str * str * nat) := [
+  ("tensors::views::TensorView", "source", 1);
+  ("matrices::views::MatrixView", "source", 1);
+  ("tensors::indexing::TensorAccess", "source", 1);
+  ("tensors::views::indexes::TensorIndex", "source", 1);
+  ("tensors::views::indexes::TensorExpansion", "source", 1);
+  ("tensors::views::ranges::TensorRange", "source", 1);
+  ("tensors::views::ranges::TensorMask", "source", 1);
+  ("tensors::views::renamed::TensorRename", "source", 1);
+  ("tensors::views::reverse::TensorReverse", "source", 1);
+  ("tensors::views::zip::TensorStack", "sources", 1);
+  ("tensors::views::zip::TensorChain", "sources", 1);
+  ("tensors::views::map::TensorMap", "source", 2);
+  ("matrices::views::ranges::MatrixRange", "source", 1);
+  ("matrices::views::reverse::MatrixReverse", "source", 1);
+  ("matrices::views::map::MatrixMap", "source", 2);
+  ("interop::TensorRefMatrix", "source", 1);
+  ("interop::MatrixRefTensor", "source", 1);
+  ("matrices::iterators::WithIndex", "iterator", 0);
+  ("tensors::indexing::TensorOwnedIterator", "source", 1);
+  ("matrices::iterators::ColumnMajorOwnedIterator", "matrix", 1);
+  ("matrices::iterators::RowMajorOwnedIterator", "matrix", 1);
+  ("differentiation::container_record::RecordContainer", "numbers", 1);
+  ("differentiation::container_record::iterators::AsRecords", "numbers", 0) ].
+
+Lemma adaptors_store_source :
+  forallb (fun e => let '(n, fld, k) := e in stores_param decls n fld k) source_table = true.
+Proof. vm_compute; reflexivity. Qed.
+
+(* ... hence, instantiated at a borrowed source the value stores a reference, at an owned source it
+   does not (all other parameters := f64).  TensorTranspose keeps its source inside a TensorAccess. *)
+Definition instance_at (n : str) (k : nat) (src : ty) : ty :=
+  match lookup decls n with
+  | Some d => TApp n (map (fun _ => LAnon) (seq 0 (dlts d)))
+                   (map (fun i => if Nat.eqb i k then src else TPrim "f64") (seq 0 (dtys d)))
+  | None => TOpaque n
+  end.
+Definition tensor_f64 : ty := TApp "tensors::Tensor" [] [TPrim "f64"].
+Definition own_lifetimes (n : str) : nat := match lookup decls n with Some d => dlts d | None => 0 end.
+(* (RecordContainer and AsRecords have a lifetime parameter of their own -- the tape's -- and are
+   covered by lifetime_types_store_ref below) *)
+Definition borrowing_adaptors : list (str * nat) :=
+  filter (fun e => Nat.eqb (own_lifetimes (fst e)) 0)
+         (map (fun e => let '(n, _, k) := e in (n, k)) source_table) ++ [("tensors::indexing::TensorTranspose", 1)].
+
+Lemma adaptors_carry_argument_borrow :
+  List.length borrowing_adaptors = 22 /\
+  forallb (fun e => stores_ref decls (instance_at (fst e) (snd e) (TRef LAnon false tensor_f64)) &&
+                    stores_ref decls (instance_at (fst e) (snd e) (TRef LAnon true tensor_f64)) &&
+                    negb (stores_ref decls (instance_at (fst e) (snd e) tensor_f64)))
+          borrowing_adaptors = true.
+Proof. split; vm_compute; reflexivity. Qed.
+
+(* every type with a lifetime parameter of its own stores a reference whatever its arguments are
+   (iterators, records, record containers, partitions), every type without one stores none when its
+   arguments are plain data *)
+Lemma lifetime_types_store_ref :
+  forallb (fun d => Bool.eqb (stores_ref decls (TApp (dname d) (map (fun _ => LAnon) (seq 0 (dlts d)))
+                                                     (map (fun _ => TPrim "f64") (seq 0 (dtys d)))))
+                             (Nat.ltb 0 (dlts d))) decls = true.
+Proof. vm_compute; reflexivity. Qed.
+
+(* ---------------------------------------------------------------- every use of the sealing pattern
+   (not only Similar): each trait of the crate that names a supertrait in a private inline module is
+   sealed in the full sense -- module private and not re-exported, the supertrait carries every type
+   parameter of the sealed trait, and the sealing trait's impls are for a closed set of crate types *)
+Definition seal_ok (u : str * str * str * str) : bool :=
+  let '(p, t, m, s) := u in
+  sealed traits modules reexports p t m s && seal_covers_params traits p t m s &&
+  seal_impls_closed sealed_impls p m s.
+Definition seal_use_eqb (a b : str * str * str * str) : bool :=
+  let '(p, t, m, s) := a in let '(p', t', m', s') := b in
+  str_eqb p p' && str_eqb t t' && str_eqb m m' && str_eqb s s'.
+
+Lemma all_seals_closed :
+  forallb seal_ok seal_uses = true /\
+  existsb (seal_use_eqb ("tensors::operations", "Similar", "private", "Sealed")) seal_uses = true.
+Proof. split; vm_compute; reflexivity. Qed.
+
 (* ---------------------------------------------------------------- concrete instantiations
    The statements above are parametric in the environment `asm`.  Here the same table is checked
    on CONCRETE argument types: every entry, instantiated with the pairs (X, X), (X, f64), (f64, X) of representative
@@ -442,3 +525,19 @@ Lemma mutant_raw_pointer :
   let ds := with_fields REC [("number", TParam 0); ("history", TRaw false (tapeof 0)); ("index", TPrim "usize")] decls in
   carries ds REC "history" = None /\ forallb (decl_ok ds) ds = false.
 Proof. split; vm_compute; reflexivity. Qed.
+
+(* a lazily initialised `layout: OnceCell<DataLayout>` cache in interop::MatrixRefTensor (seeded change
+   C20-u2): still Send, no longer Sync although element and source are -- and every MatrixView over it
+   with it *)
+Definition MRT := "interop::MatrixRefTensor".
+Lemma mutant_once_cell_cache :
+  let ds := with_fields MRT [("source", TParam 1); ("layout", TCell (TApp "matrices::views::DataLayout" [] []));
+                             ("_type", TPhantom (TParam 0))] decls in
+  holds ds all_true Send (G MRT) = true /\ holds ds all_true Sync (G MRT) = false /\
+  holds ds all_true Sync (TApp "matrices::views::MatrixView" [] [TPrim "f64"; TApp MRT [] [TPrim "f64"; tensor_f64]]) = false /\
+  holds decls all_true Sync (TApp "matrices::views::MatrixView" [] [TPrim "f64"; TApp MRT [] [TPrim "f64"; tensor_f64]]) = true /\
+  (* with OnceLock instead, the cache would be fine *)
+  (let ds' := with_fields MRT [("source", TParam 1); ("layout", TRwLock (TApp "matrices::views::DataLayout" [] []));
+                               ("_type", TPhantom (TParam 0))] decls in
+   holds ds' all_true Sync (G MRT) = true).
+Proof. repeat split; vm_compute; reflexivity. Qed.
